@@ -29,6 +29,8 @@ import YashModel.Pipe.WChainMeasure
 import YashModel.Pipe.StopLemmas
 import YashModel.Pipe.ReadCompose
 import YashModel.Pipe.TChainLemmas
+import YashModel.Pipe.HChainLemmas
+import YashModel.Pipe.HChainFin
 import YashModel.Pipe.Lossy
 namespace YashModel.Pipe
 
@@ -1278,6 +1280,94 @@ example :
     let s := [(0, 3, 20), (1, 3, 20), (1, 3, 20), (1, 3, 20), (2, 3, 20), (2, 3, 20)].foldl
       (fun s (a : Nat × Nat × Nat) => (s.step c a.1 a.2.1 a.2.2).getD s) (TChain.init st [1, 2, 3])
     stagesFun st [1, 2, 3] = [1, 1, 3, 3] ∧ s.push [] = [1, 1, 3, 3] ∧ s.allDone = false := by
+  decide
+
+/-! ### head-like stages: a stage in the middle that reads only a prefix and exits (HChain.lean) -/
+
+/-- ★ Conservation in prefix form.  Every stage has an allowance `mᵢ` (how many bytes it reads before it exits,
+    `head -c`; larger than anything that can arrive for a stage that reads to end of file), a per-byte function `gᵢ`
+    and a preamble.  In every reachable state — any stages, any interleaving, any sizes, upstream stages running,
+    blocked or already dead of EPIPE — what is in flight, pushed through the remaining stages with every stage
+    taking only what is left of its allowance (`HChain.push`), is exactly `stagesFunH st x`: stage `i`'s output is
+    `preᵢ ++ (the first mᵢ bytes of its input).flatMap gᵢ`.  Nothing reordered, nothing duplicated, and the bytes
+    beyond a stage's allowance never reach anything downstream. -/
+theorem hchain_conservation (c : Cfg) (st : List ((α → List α) × Nat × List α)) (x : List α) (s : HChain α)
+    (hr : HReach c st x s) : s.push [] = stagesFunH st x :=
+  hr.inv.2
+
+/-- … and once nothing in flight can reach the sink any more (`settled`: below some stage that has used up its
+    allowance, or below an input that is drained, everything is empty) the sink holds exactly that. -/
+theorem hchain_settled_complete (c : Cfg) (st : List ((α → List α) × Nat × List α)) (x : List α) (s : HChain α)
+    (hr : HReach c st x s) (hs : s.settled = true) : s.received = stagesFunH st x := by
+  rw [← hr.inv.2, (HChain.settled_push s).2 hs]
+
+/-- ★ No deadlock with head-like stages: every reachable state in which some process has not exited (normally,
+    after its allowance, or after EPIPE) has a process that can step whatever sizes it is offered: upstream of a
+    stage that has exited, a writer's next `write` is EPIPE (a step), a writer waiting for room is ready because
+    the pipe has no reader; downstream the argument from the sink backwards is unchanged. -/
+theorem hchain_no_deadlock (c : Cfg) (hv : c.Valid) (st : List ((α → List α) × Nat × List α)) (x : List α)
+    (s : HChain α) (hr : HReach c st x s) (hnf : s.allDone = false) :
+    ∃ i, i < s.procs ∧ ∀ n k, (s.step c i n k).isSome = true := by
+  have ⟨hi, hw⟩ := hr.cnt
+  rcases HChain.progress c hv s hi with h | h | ⟨_, h, _⟩
+  · rw [h] at hnf; exact absurd hnf (by simp)
+  · exact h
+  · omega
+
+/-- ★ Where a schedule stops, with head-like stages anywhere: a reachable state (read buffers ≥ 1 byte) in which
+    no process can step has every process exited — normally, after its allowance, or of EPIPE — and the sink holds
+    exactly `stagesFunH st x`: downstream of a head-like stage `gᵢ` of the consumed PREFIX (then end of file),
+    upstream nothing that matters (`HChain.Fin`: an exited stage holds nothing and has used up its allowance or
+    drained its input; a stage dies of EPIPE only below a stage that exited early; `allDone_settled`). -/
+theorem hchain_complete (c : Cfg) (hv : c.Valid) (st : List ((α → List α) × Nat × List α)) (x : List α)
+    (s : HChain α) (hr : HReach1 c st x s) (hstuck : ∀ i n k, s.step c i n k = none) :
+    s.allDone = true ∧ s.received = stagesFunH st x := by
+  have hd : s.allDone = true := by
+    cases h : s.allDone with
+    | true => rfl
+    | false =>
+      obtain ⟨i, _, hs⟩ := hchain_no_deadlock c hv st x s hr.reach h
+      have := hs 1 1
+      rw [hstuck i 1 1] at this
+      exact absurd this (by simp)
+  exact ⟨hd, hchain_settled_complete c st x s hr.reach (HChain.allDone_settled hr.fin hd).1⟩
+
+/-- … and for what the driver runs: whenever `hchainTransfer` ends with every process exited, the sink holds exactly
+    the pipeline's function of the payload (for `cat` stages and one head-like stage: the first `hk` bytes). -/
+theorem hchain_transfer_done (c : Cfg) (seed m hs hk wk rk : Nat) (x : List α)
+    (hd : (hchainTransfer c seed m hs hk wk rk x).allDone = true) :
+    (hchainTransfer c seed m hs hk wk rk x).received =
+      stagesFunH ((List.range m).map fun i => (fun b => [b], if i + 1 = hs then hk else x.length + 1, [])) x := by
+  have hn1 : 1 ≤ (if rk = 0 then 1024 else rk) := by split <;> omega
+  have hr := hchainRun_reach1 (c := c) (x := x)
+    (st := (List.range m).map fun i => ((fun b => [b] : α → List α), if i + 1 = hs then hk else x.length + 1, ([] : List α)))
+    hn1 (if wk = 0 then x.length + 1 else wk) ((m + 2) * (12 * x.length + 200)) seed _ HReach1.init
+  exact hchain_settled_complete c _ x _ hr.reach (HChain.allDone_settled hr.fin hd).1
+
+/-- What the driver computes for `xfer … mid=M hs=J hk=K` (`hchainTransfer`: the seeded executor over the M + 2
+    processes, forwarder J stopping after K bytes) is a reachable state, so conservation in prefix form holds of
+    it, and whenever it is settled the sink holds exactly the pipeline's function of the payload. -/
+theorem hchain_transfer_conserves (c : Cfg) (seed m hs hk wk rk : Nat) (x : List α) :
+    let st : List ((α → List α) × Nat × List α) :=
+      (List.range m).map fun i => (fun b => [b], if i + 1 = hs then hk else x.length + 1, [])
+    let s := hchainTransfer c seed m hs hk wk rk x
+    s.push [] = stagesFunH st x ∧ (s.settled = true → s.received = stagesFunH st x) := by
+  intro st s
+  have hr : HReach c st x s := hchainRun_reach _ _ _ _ _ HReach.init
+  exact ⟨hchain_conservation c st x s hr, hchain_settled_complete c st x s hr⟩
+
+/- `cat | head -c 3 | doubling` on 12 bytes through 4-byte pipes under a round-robin schedule: the head-like stage
+    exits, its upstream `cat` and the source die of EPIPE, the doubler and the sink finish — every process has
+    exited, the state is settled, the sink holds the first 3 bytes doubled -/
+set_option maxRecDepth 20000 in
+example :
+    let st : List ((Nat → List Nat) × Nat × List Nat) :=
+      [(fun b => [b], 1000, []), (fun b => [b], 3, []), (fun b => [b, b], 1000, [])]
+    let c : Cfg := { pipeSize := 4, pipeBuf := 2 }
+    let sched : List Nat := (List.range 16).flatMap fun _ => [0, 1, 2, 3, 4]
+    let s := sched.foldl (fun s i => (s.step c i 3 20).getD s) (HChain.init st (List.range 12))
+    stagesFunH st (List.range 12) = [0, 0, 1, 1, 2, 2] ∧ s.allDone = true ∧ s.settled = true ∧
+      s.received = [0, 0, 1, 1, 2, 2] := by
   decide
 
 /-! ### the n-stage chain with explicit wakers (WChain.lean) -/
